@@ -79,7 +79,7 @@ public:
   const T& back() const {return _end.item->prev->key;}
 
   Iterator removeFront() {return remove(_begin);}
-  Iterator removeBack() {return remove(_end.item->prev);}
+  Iterator removeBack() {return remove(Iterator(_end.item->prev));}
 
   usize size() const {return _size;}
   bool isEmpty() const {return endItem.prev == 0;}
